@@ -12,7 +12,7 @@ EXPLANATION = (
     "(decoder / Default); nothing else writes it. R3 (osu!): the one-shot counting closure and the gradual increment function "
     "count every object kind with exactly one of n_circles/n_sliders/n_spinners (+1) and max_combo (+1), and the two are "
     "identical arm by arm. R4: Difficulty::passed_objects(n) records Some(n) for every n and get_passed_objects returns exactly that n "
-    "(usize::MAX when unset) — the structural half of 'counted = min(n, total)'. R5 (mania): ManiaObject::new (private helpers inlined) adds exactly 1 to n_hold_notes in the Slider, Spinner and Hold arms of its match on the object kind, nothing in the Circle arm, and no other condition (a duration test, say) decides a count. R6 (taiko): in the one-shot create_difficulty_objects the max_combo / n_diff_objects bookkeeping sees every object the iterator yields: it rides as an inspect() / map() adaptor in front of every truncating adaptor, or every object taken with next() passes a count before the function returns or takes the next one (a private helper that receives the counter is judged instead). R7: with every private helper inlined, every path through <Mode>::convert to a return writes is_convert = true and mode = GameMode::<Mode> (a fast path that returns early hands out a converted map flagged as native). All other counting clauses (min(n,total), monotone, caps, sums) are "
+    "(usize::MAX when unset) — the structural half of 'counted = min(n, total)'. R5 (mania): ManiaObject::new (private helpers inlined) adds exactly 1 to n_hold_notes in the Slider, Spinner and Hold arms of its match on the object kind, nothing in the Circle arm, and no other condition (a duration test, say) decides a count. R6 (taiko): in the one-shot create_difficulty_objects the max_combo / n_diff_objects bookkeeping sees every object the iterator yields: it rides as an inspect() / map() adaptor in front of every truncating adaptor, or every object taken with next() passes a count before the function returns or takes the next one (a private helper that receives the counter is judged instead). R8: no read of the converted map in a mode entry precedes one of its in-place rewrites. R7: with every private helper inlined, every path through <Mode>::convert to a return writes is_convert = true and mode = GameMode::<Mode> (a fast path that returns early hands out a converted map flagged as native). All other counting clauses (min(n,total), monotone, caps, sums) are "
     "arithmetic over runtime values: NOT decided.")
 
 BM = 'model::beatmap::Beatmap'
